@@ -435,6 +435,7 @@ Inductive token :=
 | TErrRaw (target : string)    (* Err {source = raw, target} *)
 | TErr (source : Z) (target : string)
 | TPlain                       (* the raw value itself *)
+| TNum (z : Z)                 (* a number different from the raw value *)
 | TUB | TNoCompile.
 
 Definition token_of_value (raw : Z) (x : evalue) : token :=
@@ -457,6 +458,7 @@ Definition show_token (t : token) : string :=
   | TErrRaw t => "Err(raw," ++ t ++ ")"
   | TErr s t => "Err(" ++ show_Z s ++ "," ++ t ++ ")"
   | TPlain => "raw"
+  | TNum z => show_Z z
   | TUB => "UB"
   | TNoCompile => "nocompile"
   end.
@@ -516,8 +518,9 @@ Definition c07_field_line (d : device) (obj : string) (f : field) : list string 
      rle 0 (2 ^ w) (fun p => token_of_getter (raw_of_pattern (f_base f) w p) (getter d f p))]
   end.
 
-(* one line per emitted enum: the From/TryFrom table over every raw value of a w-bit field, the Default, and
-   the Into round trip of every unit variant *)
+(* one line per emitted enum: the From/TryFrom table over every raw value of a w-bit field, the number Into gives
+   back for each of these results ("raw" = the value converted from; "nocompile" marks an Err, which has no
+   Into), the Default, and the Into -> From round trip of every unit variant *)
 Definition c07_enum_line (t : enum_def * base_type * Z) : string :=
   match t with
   | (e, b, w) =>
@@ -525,6 +528,11 @@ Definition c07_enum_line (t : enum_def * base_type * Z) : string :=
     let full := match b with BInt => w =? carrier_bits w | _ => false end in
     "enum " ++ show_eenum ee ++ " | " ++
     rle (lo_of full w) (2 ^ w) (fun raw => token_of_conv raw (from_num ee raw)) ++
+    " | into: " ++
+    rle (lo_of full w) (2 ^ w) (fun raw => match from_num ee raw with
+                                           | CVal x => if to_num x =? raw then TPlain else TNum (to_num x)
+                                           | CErr _ _ => TNoCompile
+                                           end) ++
     " | default=" ++ match enum_default ee with Some x => show_token (token_of_value (-1) x) | None => "-" end ++
     " | " ++ show_roundtrip ee
   end.
